@@ -1100,6 +1100,25 @@ ANIcreate(int32    file_id,  /* IN: file ID */
             HE_REPORT_GOTO("Bad annotation type for this call", FAIL);
     }
 
+    /* Htagnewref keeps handing out the same reference until an annotation using it has been written:
+       step over the references of annotations of this type that exist in memory only */
+    {
+        filerec_t *file_rec = HAatom_object(file_id);
+
+        if (!BADFREC(file_rec) && file_rec->an_num[type] != -1) {
+            int32 ann_key = AN_CREATE_KEY(type, ann_ref);
+
+            while (tbbtdfind(file_rec->an_tree[type], &ann_key, NULL) != NULL) {
+                if (ann_ref == MAX_REF)
+                    HGOTO_ERROR(DFE_NOREF, FAIL);
+                ann_ref++;
+                ann_key = AN_CREATE_KEY(type, ann_ref);
+            }
+            if (type == AN_FILE_LABEL || type == AN_FILE_DESC)
+                elem_ref = ann_ref;
+        }
+    }
+
     /* Check tag and ref */
     if (!elem_tag)
         HGOTO_ERROR(DFE_BADTAG, FAIL);
